@@ -49,4 +49,22 @@ CLAIMED = {
         note='stdin/stdout of StandardIO stubbed (one arbitrary byte per character); script-file parsing and the pygame window '
              'are outside the claim.',
         technique=_T_PYSYM, ref='DESIGN.md 2/C17'),
+    'C12': dict(
+        text='Bounded symbolic verification: every ordered pair of the 19 binary operators, unary - ~ # and ?: on either side of '
+             'every binary operator, nested ternaries and parentheses are parsed by the real LALR parser and carried through the real '
+             'pipeline; for every leaf value in [-2,3] and every partition of the leaves into parser constant / macro parameter / '
+             'label-tainted the word that reaches the image equals the reference grouping under reference integer semantics (errors '
+             'coincide). Each entry of op_string_to_function is proved equal to an independent z3 semantics on [-512,512].',
+        note='The precedence table is a regression reference frozen in fjv/checks/c12.py (the repo documents none). Literals are '
+             'validated on a concrete list through the real lexer. Leaf range keeps ** and << inside the 64-bit encoding.',
+        technique=_T_PYSYM, ref='DESIGN.md 2/C12'),
+    'C14': dict(
+        text='Bounded symbolic verification: the whole real assembler.assemble() runs on 16 statement skeletons x every operator, '
+             'with symbolic operands of unconstrained sign, so that each operator is evaluated at each stage (parse-time folding, '
+             'constant definition, macro argument, rep count and iterator, pad/reserve/segment operands, label resolution, wflip '
+             'value/address, op words). Every path must end in success or a FlipJumpException that is not the generic funnel, and '
+             'a failed assembly must leave no output file.',
+        note='Text-level error classes (lexing/syntax errors, byte mutations) and never-hangs are outside: the regex lexer and the '
+             'LALR tables cannot be driven by symbolic strings. Operand magnitudes are bounded per operator (see evidence).',
+        technique=_T_PYSYM, ref='DESIGN.md 2/C14'),
 }
